@@ -1,7 +1,15 @@
 import SurfModel.IOQueue
 /-!
 Model of the write side of `UnixTerminal` (src/unix.rs): `Write for UnixTerminal`, `execute` (both append
-encoded bytes to `write_queue`), `frames_drop`, and the output part of `poll`:
+encoded bytes to `write_queue`), `frames_drop`:
+
+```
+self.write_queue.clear_but_last();
+if self.size.is_some() { self.write_all(GET_TERM_SIZE).unwrap_or(()); }   // size from escape sequences
+```
+
+(`self.size` is fixed by the constructor: `sizeEsc : Bool` is a parameter of the terminal) and the output part
+of `poll`:
 
 ```
 self.write_queue.flush()?;
@@ -37,16 +45,23 @@ inductive TOp where
   | poll (its : List Iter)
 deriving Repr
 
-def injectAll (q : Q) : List (List UInt8) → Q × List Ev
-  | [] => (q, [])
+/-- `GET_TERM_SIZE = b"\x1b[18t\x1b[14t"` -/
+def getTermSize : List UInt8 := [0x1b, 0x5b, 0x31, 0x38, 0x74, 0x1b, 0x5b, 0x31, 0x34, 0x74]
+
+def injectAll? (q : Q) : List (List UInt8) → Option (Q × List Ev)
+  | [] => some (q, [])
   | b :: bs =>
-    let r := injectAll (q.write b) bs
-    (r.1, .write b :: r.2)
+    match q.write? b with
+    | none => none
+    | some q' =>
+      match injectAll? q' bs with
+      | none => none
+      | some (q'', evs) => some (q'', .write b :: evs)
 
 /-- one loop iteration -/
 def pollIter? (q : Q) (it : Iter) : Option (Q × List Ev) :=
   match (if q.isEmpty then none else it.writable) with
-  | none => some (injectAll q it.inject)
+  | none => injectAll? q it.inject
   | some k =>
     match q.asSlice? with
     | none => none
@@ -55,8 +70,9 @@ def pollIter? (q : Q) (it : Iter) : Option (Q × List Ev) :=
       match q.consumeWith? (some size) with
       | none => none
       | some q' =>
-        let r := injectAll q' it.inject
-        some (r.1, .take (s.take size) :: r.2)
+        match injectAll? q' it.inject with
+        | none => none
+        | some (q'', evs) => some (q'', .take (s.take size) :: evs)
 
 def pollLoop? (q : Q) : List Iter → Option (Q × List Ev)
   | [] => some (q, [])
@@ -77,27 +93,39 @@ def poll? (q : Q) (its : List Iter) : Option (Q × List Ev) :=
     | none => none
     | some (q2, evs) => some (q2, .flush :: evs)
 
-def tstep? (q : Q) : TOp → Option (Q × List Ev)
-  | .write b => some (q.write b, [.write b])
+/-- `frames_drop`: cut, then (escape-sequence size mode) queue the size query again — `write_all` on the
+queue is a single `write`, it extends the chunk that was kept (or starts one when the queue is empty) -/
+def framesDrop? (sizeEsc : Bool) (q : Q) : Option (Q × List Ev) :=
+  match q.clearButLast? with
+  | none => none
+  | some q' =>
+    if sizeEsc then
+      match q'.write? getTermSize with
+      | some q'' => some (q'', [.drop q'.length, .write getTermSize])
+      | none => none
+    else some (q', [.drop q'.length])
+
+def tstep? (sizeEsc : Bool) (q : Q) : TOp → Option (Q × List Ev)
+  | .write b => match q.write? b with
+    | some q' => some (q', [.write b])
+    | none => none
   | .flush => match q.flush? with
     | some q' => some (q', [.flush])
     | none => none
-  | .drop => match q.clearButLast? with
-    | some q' => some (q', [.drop q'.length])
-    | none => none
+  | .drop => framesDrop? sizeEsc q
   | .poll its => poll? q its
 
-def trun? (q : Q) : List TOp → Option (Q × List Ev)
+def trun? (sizeEsc : Bool) (q : Q) : List TOp → Option (Q × List Ev)
   | [] => some (q, [])
   | op :: ops =>
-    match tstep? q op with
+    match tstep? sizeEsc q op with
     | none => none
     | some (q', evs) =>
-      match trun? q' ops with
+      match trun? sizeEsc q' ops with
       | none => none
       | some (q'', evs') => some (q'', evs ++ evs')
 
-/-! ## line protocol: `t <op> …`
+/-! ## line protocol: `t <op> …` (size from ioctl) / `te <op> …` (size from escape sequences)
 ops: `w:<hex>`, `W:<len>:<tag>` (synthetic printable payload, byte i = 32 + (tag + i) % 95), `f`, `d`,
 `p:<a>,<a>,…` one answer per loop iteration: a number (bytes accepted) or `n` (not writable); `p:-` no iteration.
 answer: per op `<bytes handed to tty so far>/<chunks_count>/<len>`, then `end <fnv64 of tty bytes>/<len>` -/
@@ -133,21 +161,23 @@ def takeLen : List Ev → Nat → Nat
   | .take o :: evs, n => takeLen evs (n + o.length)
   | _ :: evs, n => takeLen evs n
 
-def runT (q : Q) (sent : Nat) (h : UInt64) : List TOp → List String → List String
+def runT (sizeEsc : Bool) (q : Q) (sent : Nat) (h : UInt64) : List TOp → List String → List String
   | [], acc => (s!"end {h.toNat}/{q.len}" :: acc).reverse
   | op :: ops, acc =>
-    match tstep? q op with
+    match tstep? sizeEsc q op with
     | none => ("panic" :: acc).reverse
     | some (q', evs) =>
       let sent' := takeLen evs sent
       let h' := (sentBytes evs []).foldl fnvStep h
-      runT q' sent' h' ops (s!"{sent'}/{q'.chunksCount}/{q'.len}" :: acc)
+      runT sizeEsc q' sent' h' ops (s!"{sent'}/{q'.chunksCount}/{q'.len}" :: acc)
 
 def handle : List String → String
-  | "t" :: toks =>
-    match toks.mapM parseTOp with
-    | some ops => " ".intercalate (runT Q.new 0 0xcbf29ce484222325 ops [])
-    | none => "bad-args"
+  | kind :: toks =>
+    if kind == "t" || kind == "te" then
+      match toks.mapM parseTOp with
+      | some ops => " ".intercalate (runT (kind == "te") Q.new 0 0xcbf29ce484222325 ops [])
+      | none => "bad-args"
+    else "bad-op"
   | _ => "bad-op"
 
 end SurfModel.PollWrite
